@@ -690,6 +690,70 @@ fn run_plan_item(b: &mut Built, drv: &mut Driver, case: &Value, item: &Value, s:
   }
 }
 
+// ---------------------------------------------------------------- stream: rescore over several segments
+
+fn ids_of(v: &Value) -> Vec<String> {
+  v["hits"].as_array().map(|a| a.iter().map(|h| h["doc_id"].as_str().unwrap_or("").to_string()).collect()).unwrap_or_default()
+}
+
+/// `rescore_hits` collects the window hits the rescore query gives no score to (per segment,
+/// from a hash map) and removes them from the hit list.  Finder: no panic.  Correspondence
+/// (`Core/RescoreDrop`): the hits that survive are the first-pass hits minus the rejected
+/// window hits, whatever order the rejected indices were collected in.
+fn run_rescore_item(b: &mut Built, drv: &mut Driver, case: &Value, item: &Value, s: &mut Summary) {
+  let mut base = json!({"query": item["first"].clone(), "limit": 60, "return_stored": false, "highlight_field": null});
+  if let Some(ex) = item["execution"].as_str() {
+    base["execution"] = json!(ex);
+  }
+  if item["explain"] == json!(true) {
+    base["explain"] = json!(true);
+  }
+  let mut req = base.clone();
+  req["rescore"] = json!({"window_size": item["window"].clone(), "query": item["rq"].clone(), "score_mode": item["mode"].clone()});
+  let out = run_text(b, &req.to_string());
+  let cls = judge(s, case, item, Some(&req), &out, "rescore");
+  let Out::Ok(fin) = &out else { return };
+  if cls != "ok" || item["all_match"] != json!(true) {
+    return;
+  }
+  // first pass alone, and the rescore query alone (every document matches it: the documents
+  // it returns are the ones it scores)
+  let (Out::Ok(first), Out::Ok(alone)) = (
+    run_text(b, &base.to_string()),
+    run_text(b, &json!({"query": item["rq"].clone(), "limit": 1000, "return_stored": false, "highlight_field": null}).to_string()),
+  ) else {
+    s.count("rescore.control-failed");
+    return;
+  };
+  let first_ids = ids_of(&first);
+  let scored: std::collections::BTreeSet<String> = ids_of(&alone).into_iter().collect();
+  let window = (item["window"].as_u64().unwrap_or(0).min(1 << 20) as usize).min(first_ids.len());
+  let mut rejected: Vec<usize> = (0..window).filter(|i| !scored.contains(&first_ids[*i])).collect();
+  // any collection order must give the same result: hand the model a scrambled one
+  rejected.reverse();
+  if rejected.len() > 2 {
+    let k = rejected.len() / 2;
+    rejected.swap(0, k);
+  }
+  s.count(&format!("rescore.rejected-{}", rejected.len().min(3)));
+  if b.segments >= 2 && rejected.len() >= 2 {
+    s.count("rescore.several-rejected-on-several-segments");
+  }
+  let m = drv.call("C16", json!({"op": "rescore_drop", "n": first_ids.len(), "remove": rejected}));
+  let sub = single(case, item);
+  if m["ok"] != json!(true) || m["cls"] != json!("ok") {
+    s.disagree("rescore.driver", &sub, out.brief(), m);
+    return;
+  }
+  let mut want: Vec<String> = m["kept"].as_array().map(|a| a.iter().map(|i| first_ids[i.as_u64().unwrap_or(0) as usize].clone()).collect()).unwrap_or_default();
+  let mut got = ids_of(fin);
+  want.sort();
+  got.sort();
+  if want != got {
+    s.disagree("rescore.surviving-hits", &sub, json!({"first_pass": first_ids, "after_rescore": ids_of(fin), "scored_by_rescore_query": scored}), m);
+  }
+}
+
 // ---------------------------------------------------------------- stream: isolated (child process)
 
 /// An allocation failure (`with_capacity(n)` / `vec![x; n]` with a request-supplied n) aborts
@@ -787,7 +851,7 @@ impl Prop for C16 {
     "C16"
   }
   fn rule(&self) -> &'static str {
-    "case = random small index (text/keyword/numeric/nested schema, 0-3 commits, deletions, in-memory or filesystem) + 8-12 requests of one stream: structured random requests (all query node types, filters, sorts, 20 aggregation shapes incl. pipelines, highlight, collapse, suggest, rescore, fuzzy, huge numbers, regex/wildcard metacharacters, deep trees, scripts), tree- and character-level mutations of such requests (multi-byte characters, extreme numbers, truncation, deep nesting), cursor strings (real next_cursor, edited, random hex, odd lengths, non-ASCII at even/odd offsets) on score and field sorts, script_score scripts from an expression grammar plus malformed variants, minimum_should_match specs, and planner-class queries with repeated terms; every request runs in its own thread under catch_unwind with a 30 s watchdog, debug assertions on. A request is non-trivial when it deserialises and reaches IndexReader::search (distinct by index+request JSON). Exploration, not proof: the blanket claim rests on this stream."
+    "case = random small index (text/keyword/numeric/nested schema, 0-3 commits, deletions, in-memory or filesystem) + 8-12 requests of one stream: structured random requests (all query node types, filters, sorts, 20 aggregation shapes incl. pipelines, highlight, collapse, suggest, rescore, fuzzy, huge numbers, regex/wildcard metacharacters, deep trees, scripts), tree- and character-level mutations of such requests (multi-byte characters, extreme numbers, truncation, deep nesting), rescore requests over several segments whose rescore query rejects window hits, cursor strings (real next_cursor, edited, random hex, odd lengths, non-ASCII at even/odd offsets) on score and field sorts, script_score scripts from an expression grammar plus malformed variants, minimum_should_match specs, and planner-class queries with repeated terms; every request runs in its own thread under catch_unwind with a 30 s watchdog, debug assertions on. A request is non-trivial when it deserialises and reaches IndexReader::search (distinct by index+request JSON). Exploration, not proof: the blanket claim rests on this stream."
   }
   fn count(&self, tier: Tier) -> usize {
     tier.pick(900, 24_000)
@@ -812,7 +876,31 @@ impl Prop for C16 {
       return c;
     }
     match i % 12 {
-      0..=3 => {
+      3 => {
+        // rescore on several segments: first-pass rankings that interleave the segments, a
+        // rescore query that gives no score to some window hits
+        let mut c = case_of(rng, "rescore", 0);
+        c["commits"] = gen::commits_multi(rng, &c["schema"].clone());
+        let n = 8 + rng.below(4);
+        c["items"] = Value::Array(
+          (0..n)
+            .map(|_| {
+              let (rq, all_match) = gen::rescore_query(rng);
+              let mut it = json!({"first": gen::first_pass_query(rng), "rq": rq, "all_match": all_match,
+                                  "window": gen::small_or_huge(rng, 8), "mode": *rng.pick(&["total", "multiply", "sum", "max", "min"])});
+              if rng.chance(1, 4) {
+                it["execution"] = json!(*rng.pick(&["bm25", "wand", "bmw"]));
+              }
+              if rng.chance(1, 6) {
+                it["explain"] = json!(true);
+              }
+              it
+            })
+            .collect(),
+        );
+        c
+      }
+      0..=2 => {
         let mut c = case_of(rng, "req", 0);
         let n = 8 + rng.below(5);
         c["items"] = Value::Array(
@@ -965,6 +1053,7 @@ impl Prop for C16 {
         "script" => run_script_item(&mut b, drv, case, &item, live, s),
         "msm" => run_msm_item(&mut b, drv, case, &item, s),
         "plan" => run_plan_item(&mut b, drv, case, &item, s),
+        "rescore" => run_rescore_item(&mut b, drv, case, &item, s),
         _ => run_req_item(&mut b, case, &item, s),
       }
     }
